@@ -56,6 +56,7 @@ type recorder struct {
 	// packet goroutine can be stranded); 0 = none
 	silenceHold atomic.Int64
 	overflow    atomic.Bool
+	closed      atomic.Bool
 }
 
 func newRecorder(capacity int, jitter uint64) *recorder {
@@ -108,6 +109,9 @@ func splitmix(x uint64) uint64 {
 // is delayed - still inside the critical section, which is what a preemption there would do.
 func (r *recorder) hook(localAddr func(any) string) func(ev string, obj any, a, b uint64, x any) {
 	return func(ev string, obj any, a, b uint64, x any) {
+		if r.closed.Load() {
+			return
+		}
 		s, n := r.slot()
 		if s == nil {
 			return
